@@ -33,6 +33,27 @@ for d in sorted(glob.glob(os.path.join(V, "seeded", "C*"))):
     c = m.get("caught", {})
     out.append("| %s | %s | %s | %s | %s |" % (os.path.basename(d), str(m.get("site", "")).replace("|", "/")[:80],
                str(m.get("needs", "")).replace("|", "/").replace("\n", " ")[:200], c.get("by", "?"), c.get("note", "")))
+out.append("")
+out.append("### 11.6 Per-property status (from tools/manifest/Cxx.json and the last evidence files)\n")
+enabled = set(open(os.path.join(V, "tools", "enabled.txt")).read().split())
+for f in sorted(glob.glob(os.path.join(V, "tools", "manifest", "C*.json"))):
+    pid = os.path.basename(f)[:-5]
+    m = json.load(open(f))
+    ev = {}
+    try:
+        ev = json.load(open(os.path.join(V, "evidence", pid + ".json")))
+    except Exception:
+        pass
+    cov = ev.get("coverage", {})
+    out.append("**%s** (%s) — technique: %s. Last run: tier %s, %s obligations (%s discharged), %s correspondence evaluations (%s distinct non-trivial), axioms: %s." % (
+        pid, "claimed" if pid in enabled else "not claimed", m.get("technique", ""), ev.get("tier", "?"), cov.get("obligations", "?"),
+        cov.get("discharged", "?"), cov.get("evaluations", "?"), cov.get("distinct_nontrivial", "?"),
+        next((t for t in cov.get("trusted_base", []) if t.startswith("axioms")), "?")))
+    out.append("")
+    out.append("*Proved / tested:* " + m.get("text", ""))
+    out.append("")
+    out.append("*Trusted / modelled:* " + m.get("note", ""))
+    out.append("")
 text = "\n".join(out) + "\n"
 p = os.path.join(V, "DESIGN.md")
 s = open(p).read()
